@@ -934,7 +934,8 @@ func (node *Node) check(ctx context.Context) error {
 
 			// Headers that arrive after the in sync flag was set add block requests without
 			// clearing it, so wait until those blocks are processed before telling the handlers.
-			if !node.state.NotifiedSync() && node.state.BlockRequestsEmpty() {
+			if !node.state.NotifiedSync() && node.state.BlockRequestsEmpty() &&
+				!node.state.ProcessingBlock() {
 				// TODO Add method to wait for mempool to sync
 				for _, handler := range node.handlers {
 					handler.HandleInSync(ctx)
